@@ -1,5 +1,6 @@
 import Driver.Proto
 import XsdataModel.Gen.Occurs
+import XsdataModel.Gen.DtdNs
 open Lean Proto Py Xs.Gen
 
 namespace OpsGen
@@ -83,6 +84,18 @@ def run (op : String) (a : Json) : Option (Except String Json) :=
   | "gen.xsd_occurs" => some do pure <| optSites (occurs (sites (← dParticle (fld a "particle"))))
   | "gen.dtd_sites" => some do pure <| ok (jList jSite (dtdSites (← dContent (fld a "content"))))
   | "gen.dtd_occurs" | "gen.dtd_fields" => some do pure <| optSites (occurs (dtdSites (← dContent (fld a "content"))))
+  | "gen.dtd_nsmap" => some do
+      let dOpt (j : Json) : Except String (Option Str) := match j with
+        | .null => pure none
+        | x => (asStr x).map some
+      let attrs ← (← asArr (fld a "attrs")).mapM (fun j => do
+        pure ({ pfx := ← dOpt (fld j "prefix"), name := ← asStr (fld j "name"), defaultValue := ← dOpt (fld j "default_value") } : DAttr))
+      let base ← (← asArr (fld a "base")).mapM (fun j => match j with
+        | .arr #[k, v] => do pure (← dOpt k, ← asStr v)
+        | _ => .error "base pair")
+      let (m, rest) := buildNsMap base (← dOpt (fld a "prefix")) attrs
+      pure <| ok (jObj [("ns_map", jList (fun (k, v) => Json.arr #[jOpt jStr k, jStr v]) m),
+        ("attrs", jList (fun (x : DAttr) => Json.arr #[jOpt jStr x.pfx, jStr x.name]) rest)])
   | _ => none
 
 end OpsGen
